@@ -257,6 +257,8 @@ def main():
     ap.add_argument('--width', default='f64')
     ap.add_argument('--job', default='abi')
     ap.add_argument('--tier', default='quick')
+    ap.add_argument('--config', default='cc')  # cc: the defines of the binding's cc build (build.rs without features); cmake: the configuration header
+    # generated by the repository's CMake project with the options the binding's cmake build passes (BUILD_TESTING=0, LIBA_REAL=4 for f32)
     ap.add_argument('--cstd', default='')  # language mode the C side is compiled in (the binding's build script passes none: the compiler default; c90 is the oldest mode the headers support)
     a, _ = ap.parse_known_args()
     JOB = a.job
@@ -267,6 +269,14 @@ def main():
     inc = os.path.join(REPO, 'include')
     work = tempfile.mkdtemp(prefix='abi-', dir=os.environ.get('VERIF_BUILD', os.path.join(os.path.dirname(os.path.abspath(__file__)), '..', 'build')))
     try:
+        if a.config == 'cmake':
+            cm = os.path.join(work, 'cm')
+            r = run(['cmake', '-S', REPO, '-B', cm, '-G', 'Ninja', '-DBUILD_TESTING=0'] + (['-DLIBA_REAL=4'] if real == 'f32' else []))
+            hdr = os.path.join(cm, 'a.cmake.h')
+            if r.returncode != 0 or not os.path.exists(hdr):
+                emit({'t': 'broken', 'why': 'REPO-BUILD-FAILURE cmake configure: ' + (r.stderr or r.stdout)[-300:]})
+                sys.exit(2)
+            cdef = ['-DA_HAVE_H="%s"' % hdr]  # the width comes from the generated header, as in the binding's cmake build
         check(real, cdef, inc, work)
     finally:
         shutil.rmtree(work, ignore_errors=True)
